@@ -1,5 +1,6 @@
 """C18 -- StringView answers every query exactly like std::string_view."""
 from vlib import Job
+import re
 
 SV = r'tlx::StringView::'
 
@@ -18,6 +19,16 @@ def jobs(tier):
     for k in range(8):
         js.append(J('cmp_' + cmpn[k], 'compare', 'c_cmp', [cmpf[k]], extra=['KIND=%d' % k] + (['ZTERM'] if k == 1 else []),
                     what='%s agrees in sign/truth with traits::compare-then-length on unsigned bytes' % cmpn[k]))
+    opn = ['eq', 'ne', 'lt', 'gt', 'le', 'ge']; ops = ['==', '!=', '<', '>', '<=', '>=']
+    for kind, kn, other in [(0, 'str', r'std::__cxx11::basic_string<char, std::char_traits<char>, std::allocator<char> ?> const&'), (1, 'cstr', r'char const\*')]:
+        for d in (0, 1):
+            for o in range(6):
+                sig = (r'tlx::operator%s\(tlx::StringView const&, %s\)' if d == 0 else r'tlx::operator%s\(%s, tlx::StringView const&\)') % (re.escape(ops[o]), other) if False else None
+                js.append(Job(name='mix_%s_%s_%s' % (kn, opn[o], 'vo' if d == 0 else 'ov'), shim='stringview', contract='c18_stringview.c', harness='h_mix', enforce=['c_cmp_mix'],
+                              defines=['OP_compare_mix', 'KIND=%d' % kind, 'DIR=%d' % d, 'MIXOP=%d' % o] + (['ZTERM'] if kind == 1 else []),
+                              functions=[(r'^tlx::operator%s\(tlx::StringView const&, %s\)' % (re.escape(ops[o]), other)) if d == 0 else (r'^tlx::operator%s\(%s, tlx::StringView const&\)' % (re.escape(ops[o]), other))],
+                              unwind=20, timeout=900, mode='assert', label='bounded: both operands <= 4 bytes; all byte values',
+                              what='free operator%s between a StringView and a %s (%s): same truth value as on unsigned bytes' % (ops[o], 'std::string' if kind == 0 else 'const char*', 'view first' if d == 0 else 'view second')))
     subf = [r'compare\(unsigned long, unsigned long, tlx::StringView\) const', r'compare\(unsigned long, unsigned long, tlx::StringView, unsigned long, unsigned long\) const',
             r'compare\(unsigned long, unsigned long, char const\*\) const', r'compare\(unsigned long, unsigned long, char const\*, unsigned long\) const']
     for k in range(4):
